@@ -62,6 +62,15 @@ func (inst *InstAlloca) Type() types.Type {
 		inst.Typ = types.NewPointer(inst.ElemType)
 		inst.Typ.AddrSpace = inst.AddrSpace
 	}
+	if inst.Typ.AddrSpace != inst.AddrSpace {
+		// The address space was assigned after the type was cached (the
+		// constructors take no address space): the type follows the field. The
+		// cache is left alone, since Type is called while printing, possibly
+		// from several goroutines.
+		typ := types.NewPointer(inst.Typ.ElemType)
+		typ.AddrSpace = inst.AddrSpace
+		return typ
+	}
 	return inst.Typ
 }
 
